@@ -23,7 +23,7 @@ WALL = {"quick": 900, "thorough": 7200}
 REQUIRED = {"interactions_resolved": 5000, "dihedrals_resolved": 2000, "wildcard_matches": 500, "reverse_only_matches": 300,
             "multi_term_expansions": 300, "instances_checked": 2000, "expected_failures": 50, "macros_substituted": 200,
             "nonbond_pairs_checked": 3000, "explicit_overrides": 300, "c6c12_conversions": 500, "masks_seen": 14,
-            "opls_cases": 30, "multi_line_molecules": 100}
+            "opls_cases": 30, "multi_line_molecules": 100, "other_moleculetype_instances": 200}
 TYPES = ["ta", "tb", "tc", "td", "te"]
 
 
@@ -200,10 +200,23 @@ def gen(rng):
         inter["dihedrals"].append((idx, ("typed", None)))
         lines.append(" ".join(str(x + 1) for x in idx) + " 9")
     counts = [rng.randint(1, 2) for _ in range(rng.choice([1, 1, 2, 3]))]
-    lines += ["[ system ]", "x", "[ molecules ]"] + ["MOL %d" % c for c in counts]
+    mol_lines = [("MOL", c) for c in counts]
+    other = None
+    if rng.random() < 0.5:
+        # a second molecule type that only has explicit parameters: nothing of MOL's type resolution may reach it
+        na2 = rng.randint(2, 4)
+        lines += ["[ moleculetype ]", "OTH 1", "[ atoms ]"]
+        for i in range(na2):
+            lines.append("%d %s 1 OTR B%d %d 0.0" % (i + 1, rng.choice(TYPES), i, i + 1))
+        lines.append("[ bonds ]")
+        for i in range(na2 - 1):
+            lines.append("%d %d 1 0.160 4000" % (i + 1, i + 2))
+        other = {"nbonds": na2 - 1}
+        mol_lines.insert(rng.randrange(len(mol_lines) + 1), ("OTH", rng.randint(1, 2)))
+    lines += ["[ system ]", "x", "[ molecules ]"] + ["%s %d" % x for x in mol_lines]
     return {"text": "\n".join(lines) + "\n", "tables": tables, "at": at, "btypes": btypes, "inter": inter, "macros": macros,
-            "ninst": sum(counts), "nlines": len(counts), "comb": comb, "genpairs": genpairs, "atypes": atypes, "nbp": nbp,
-            "opls": opls}
+            "ninst": sum(c for _, c in mol_lines), "nlines": len(counts), "comb": comb, "genpairs": genpairs, "atypes": atypes,
+            "nbp": nbp, "opls": opls, "other": other}
 
 
 def resolve(sec, table, types):
@@ -274,10 +287,21 @@ def run_case(cid, rng, workdir):
     for mi, mm in enumerate(top.molecules):
         bump(res, "instances_checked")
         mol = mm.molecule
+        if mm.mol_name == "OTH":
+            bump(res, "other_moleculetype_instances")
+            have = {sec: len(v) for sec, v in mol.interactions.items() if v}
+            if have != {"bonds": case["other"]["nbonds"]}:
+                violation(res, "interactions-leak-into-other-moleculetype", "instance %d of OTH has interactions %s, its "
+                          "definition has %d bonds only" % (mi, have, case["other"]["nbonds"]), w)
+            continue
         for sec, lst in case["inter"].items():
             got = {}
             for it in mol.interactions.get(sec, []):
                 got.setdefault(tuple(it.atoms), []).append([str(p) for p in it.parameters])
+            extra = set(got) - {tuple(idx) for idx, _ in lst}
+            if extra:
+                violation(res, "unexpected-interaction:%s" % sec, "instance %d has %s interactions on atoms %s that the molecule "
+                          "type does not define" % (mi, sec, sorted(extra)[:3]), w)
             for idx, (kind, val) in lst:
                 g = sorted(got.get(tuple(idx), []))
                 if kind == "explicit":
